@@ -20,6 +20,7 @@ import (
 type stCase struct {
 	P      model.Project `json:"p"`
 	Layout model.Layout  `json:"layout"`
+	Warm   []string      `json:"warm,omitempty"` // call prefix (SchemaApi_orders) after which GetAST() is compared again
 }
 
 func stSchema(p model.Project, l model.Layout) (*jschema.JSchema, string, error) {
@@ -156,11 +157,27 @@ func ruleNames(rs []model.AstRule) []string {
 	return out
 }
 
+// stEvalAST compares GetAST() of a fresh object with AstOf, and again on an object that has answered cs.Warm.
 func stEvalAST(c *core.Ctx, cs stCase) []core.Finding {
+	fs := stEvalASTAfter(c, cs, nil)
+	if len(cs.Warm) > 0 {
+		for _, f := range stEvalASTAfter(nil, cs, cs.Warm) {
+			f.Class += ":after-other-calls"
+			f.What = "after the calls " + strings.Join(cs.Warm, ", ") + " on the same object: " + f.What
+			fs = append(fs, f)
+		}
+	}
+	return fs
+}
+
+func stEvalASTAfter(c *core.Ctx, cs stCase, warm []string) []core.Finding {
 	return core.Guard("GetAST", func() []core.Finding {
 		s, text, err := stSchema(cs.P, cs.Layout)
 		if err != nil {
 			return []core.Finding{{Class: "ast:support-type", What: err.Error()}}
+		}
+		if p := warmUp(s, warm); p != "" {
+			return []core.Finding{{Class: "ast:panic", What: "panic " + p + "\n" + text}}
 		}
 		ast, err := s.GetAST()
 		if err != nil {
@@ -236,10 +253,13 @@ func runC04(c *core.Ctx) error {
 	}
 	c.Set("projects", len(ps))
 	layouts := stLayouts(c.Thorough())
+	if _, err := loadCallOrders(); err != nil {
+		return err
+	}
 	core.ParallelFor(len(ps), func(i int) {
-		for _, l := range layouts {
-			cs := stCase{P: ps[i], Layout: l}
-			c.CountEval(1)
+		for li, l := range layouts {
+			cs := stCase{P: ps[i], Layout: l, Warm: callPrefix(i*len(layouts)+li, c.Seed)}
+			c.CountEval(2)
 			c.Report(cs, stEvalAST(c, cs))
 		}
 		b, _ := json.Marshal(ps[i].Project)
